@@ -455,7 +455,11 @@ def mul_summary_valid(mirpath, fmt="f64"):
         bads = []
         for lf in leaves:
             if lf.kind != "return":
-                bads.append(lf.pc_term())
+                # debug-assertion builds: mul() may only panic when an operand has no bit above 2^32
+                # (its two debug_assert!s); the call sites are then obliged to exclude that (see _mul_stub)
+                Bp = T.Builder()
+                pre_violated = Bp.bor_bool(Bp.lt(x, T.const(1 << 32)), Bp.lt(y, T.const(1 << 32)))
+                bads.append(Bp.band_bool(lf.pc_term(), Bp.bnot(pre_violated)))
                 continue
             B = lf.B
             m, e = lf.value.items[0].t, lf.value.items[1].t
@@ -481,6 +485,7 @@ def _mul_stub(exe, st, a):
     fx = exe._get(st, a[0].frame, a[0].local, list(a[0].path), a[0].const)
     fy = exe._get(st, a[1].frame, a[1].local, list(a[1].path), a[1].const)
     x, y = fx.items[0].t, fy.items[0].t
+    st.log.append(("mul_pre", x, y))
     p00 = B.mul(B.mod(x, 1 << 32), B.mod(y, 1 << 32))
     r = B.mod(p00, 1 << 32)
     m = B.div(B.sub(B.add(B.mul(x, y), T.const(1 << 63)), r), 1 << 64)
@@ -544,6 +549,11 @@ def job_bell(args):
                 ue = B.sub(exp, T.const(inv))
                 conds.append(B.band_bool(B.bnot(definite),
                                          B.bnot(decline_contract(B, fmt, w, w1, q, mant, ue, strict))))
+            if strict:
+                # preconditions of the summarised mul() (its debug_assert!s): both operands have a bit above 2^32
+                for c in lf.log:
+                    if c[0] == "mul_pre":
+                        conds.append(B.bor_bool(B.lt(c[1], T.const(1 << 32)), B.lt(c[2], T.const(1 << 32))))
             bads.append(lf.guarded(B.disj(conds)))
         rng = random.Random(seed * 1000003 + q * 131 + lz)
         ok, msg = partition_check(leaves, [{"w": v} for v in sample_values(wlo, whi, rng)])
